@@ -264,3 +264,11 @@ func vh_C20_L6_timer_loop_fires_callbacks_unlocked() {
 	a.closeWriteLoopOnce.Do(func() { close(a.closeWriteLoopCh) })
 	vcover("end")
 }
+
+// C20.L7: handlers parked under the association lock are released by Close (= C09.L6), closed
+// timers stay closed under late stop/start (= C09 teardown), and the deadline goroutine
+// never overwrites a terminal error (= C18.L4).
+func vh_C20_L7_parked_handler_released_by_close() {
+	vh_C09_L6_parked_handshake_handler_released_by_close()
+}
+func vh_C20_L7_deadline_goroutine_keeps_terminal_error() { vh_C18_L4_read_deadline() }
